@@ -180,7 +180,7 @@ fn scenario_routing(args: &Args, report: &mut Report) {
                 let msg = scrape_json(Some(&torrents), false);
                 let c = w.slots[obs].conn.as_mut().unwrap();
                 let _ = c.send_text(&msg);
-                let ok = w.wait_fence(obs, &torrents[0], 3000);
+                let ok = w.wait_fence(obs, &torrents[0], 12_000);
                 let new = w.take_new();
                 report.eval();
                 if !ok {
@@ -299,7 +299,7 @@ fn scenario_routing(args: &Args, report: &mut Report) {
                 let handled0 = handled_before_send;
                 let involved: BTreeSet<usize> = w.slots[s].announced.keys().map(|h| h[0] as usize % ww).collect();
                 let t0 = Instant::now();
-                while t0.elapsed() < Duration::from_millis(3000) && !w.slots[s].conn.as_ref().unwrap().closed {
+                while t0.elapsed() < Duration::from_millis(12_000) && !w.slots[s].conn.as_ref().unwrap().closed {
                     w.pump_all(2);
                 }
                 let new = w.take_new();
@@ -347,7 +347,7 @@ fn scenario_routing(args: &Args, report: &mut Report) {
             }
             // fence: a scrape of the same torrent travels the same path behind the announce
             let _ = w.slots[s].conn.as_mut().unwrap().send_text(&scrape_json(Some(&[hash]), true));
-            let fenced = w.wait_fence(s, &hash, 3000);
+            let fenced = w.wait_fence(s, &hash, 12_000);
             w.pump_all(12);
             let mut new = w.take_new();
             if !fenced {
@@ -367,7 +367,7 @@ fn scenario_routing(args: &Args, report: &mut Report) {
                 loop {
                     let offers_seen = new.iter().filter(|(_, m)| matches!(m, Msg::Offer { from_peer, .. } if *from_peer == pid)).count();
                     let answer_seen = new.iter().any(|(_, m)| matches!(m, Msg::Answer { from_peer, .. } if *from_peer == pid));
-                    if (offers_seen >= *offers_expected && (!expect_answer_elsewhere || answer_seen)) || t1.elapsed() > Duration::from_millis(2500) {
+                    if (offers_seen >= *offers_expected && (!expect_answer_elsewhere || answer_seen)) || t1.elapsed() > Duration::from_millis(10_000) {
                         break;
                     }
                     w.pump_all(3);
@@ -520,7 +520,7 @@ fn scenario_routing(args: &Args, report: &mut Report) {
             report.eval();
             let t0 = Instant::now();
             let mut got: Vec<(usize, Msg)> = Vec::new();
-            while t0.elapsed() < Duration::from_millis(2500) {
+            while t0.elapsed() < Duration::from_millis(10_000) {
                 w.pump_all(2);
                 got.extend(w.take_new());
                 if got.iter().any(|(slot, _)| *slot == s) {
@@ -637,7 +637,7 @@ fn scenario_routing(args: &Args, report: &mut Report) {
     let t0 = Instant::now();
     let mut all: Vec<(usize, Msg)> = Vec::new();
     let mut fences = vec![0usize; n_slots];
-    while t0.elapsed() < Duration::from_millis(6000) && fences.iter().any(|f| *f == 0) {
+    while t0.elapsed() < Duration::from_millis(20_000) && fences.iter().any(|f| *f == 0) {
         w.pump_all(3);
         for (slot, m) in w.take_new() {
             if slot < n_slots && matches!(m, Msg::ScrapeReply { .. }) {
@@ -690,7 +690,7 @@ fn scenario_routing(args: &Args, report: &mut Report) {
         let members_v4 = (0..n_slots).filter(|s| !w.slots[*s].v6 && w.slots[*s].announced.contains_key(t)).count();
         let c = w.slots[obs_v4].conn.as_mut().unwrap();
         let _ = c.send_text(&scrape_json(Some(&[*t]), true));
-        let ok = w.wait_fence(obs_v4, t, 3000);
+        let ok = w.wait_fence(obs_v4, t, 12_000);
         let new = w.take_new();
         report.eval();
         let got = new.iter().find_map(|(slot, m)| if *slot == obs_v4 { if let Msg::ScrapeReply { files } = m { Some(files.iter().find(|f| f.0 == *t).map(|f| f.2 as usize).unwrap_or(0)) } else { None } } else { None });
@@ -742,7 +742,7 @@ fn ask(c: &mut WsConn, msg: &str, ms: u64) -> Vec<Msg> {
 }
 
 fn scrape_counts(c: &mut WsConn, h: &[u8; 20]) -> Option<(u64, u64)> {
-    for m in ask(c, &scrape_json(Some(&[*h]), true), 2500) {
+    for m in ask(c, &scrape_json(Some(&[*h]), true), 12_000) {
         if let Msg::ScrapeReply { files } = m {
             return Some(files.iter().find(|f| f.0 == *h).map(|f| (f.1, f.2)).unwrap_or((0, 0)));
         }
@@ -792,7 +792,7 @@ fn scenario_address(args: &Args, report: &mut Report) {
                     return;
                 }
             };
-            let replies = ask(&mut c, &announce_json(&h, &pid_n(k as u8), Some("started"), Some(1), None, None), 2500);
+            let replies = ask(&mut c, &announce_json(&h, &pid_n(k as u8), Some("started"), Some(1), None, None), 12_000);
             if *is_v4 {
                 n4 += 1
             } else {
@@ -855,7 +855,7 @@ fn scenario_access(args: &Args, report: &mut Report) {
     let mut announce = |report: &mut Report, keep: &mut Vec<WsConn>, h: &[u8; 20], listed: bool, phase: &str| {
         pid_ctr += 1;
         let mut c = WsConn::open(tracker.addr_v4(), None).unwrap();
-        let replies = ask(&mut c, &announce_json(h, &pid_n(pid_ctr), Some("started"), Some(1), None, None), 2500);
+        let replies = ask(&mut c, &announce_json(h, &pid_n(pid_ctr), Some("started"), Some(1), None, None), 12_000);
         report.eval();
         let ok = permitted(listed);
         let got_reply = replies.iter().any(|m| matches!(m, Msg::AnnounceReply { .. }));
@@ -952,10 +952,10 @@ fn scenario_expiry(args: &Args, report: &mut Report) {
     let mut obs = WsConn::open(tracker.addr_v4(), None).unwrap();
     // three peers at t0 on torrent a; two peers on torrent b
     for k in 0..3 {
-        ask(&mut conns[k], &announce_json(&ha, &pid_n(k as u8), Some("started"), Some(k as u64 % 2), None, None), 2500);
+        ask(&mut conns[k], &announce_json(&ha, &pid_n(k as u8), Some("started"), Some(k as u64 % 2), None, None), 12_000);
     }
     for k in 3..5 {
-        ask(&mut conns[k], &announce_json(&hb, &pid_n(k as u8), Some("started"), Some(1), None, None), 2500);
+        ask(&mut conns[k], &announce_json(&hb, &pid_n(k as u8), Some("started"), Some(1), None, None), 12_000);
     }
     // peer 3 offers twice to its only other peer (4): offer X at t0 (answered in time), offer Y at t0 (expires)
     let ox = {
@@ -968,7 +968,7 @@ fn scenario_expiry(args: &Args, report: &mut Report) {
         o[0] = 2;
         o
     };
-    ask(&mut conns[3], &announce_json(&hb, &pid_n(3), None, Some(1), Some(&[(ox, "x".into()), (oy, "y".into())]), None), 2500);
+    ask(&mut conns[3], &announce_json(&hb, &pid_n(3), None, Some(1), Some(&[(ox, "x".into()), (oy, "y".into())]), None), 12_000);
     std::thread::sleep(Duration::from_millis(100));
     conns[4].pump();
     let got_offers = conns[4].log.iter().filter(|m| matches!(m, Incoming::Text(j, raw) if matches!(classify(j, raw), Msg::Offer { .. }))).count();
@@ -987,7 +987,7 @@ fn scenario_expiry(args: &Args, report: &mut Report) {
     }
     // offer still pending one second before its deadline: the answer is forwarded
     let start3 = conns[3].log.len();
-    let r4 = ask(&mut conns[4], &announce_json(&hb, &pid_n(4), None, Some(1), None, Some((&pid_n(3), &forwarded, "ans"))), 2500);
+    let r4 = ask(&mut conns[4], &announce_json(&hb, &pid_n(4), None, Some(1), None, Some((&pid_n(3), &forwarded, "ans"))), 12_000);
     std::thread::sleep(Duration::from_millis(100));
     conns[3].pump();
     let delivered = conns[3].log[start3..].iter().any(|m| matches!(m, Incoming::Text(j, raw) if matches!(classify(j, raw), Msg::Answer { .. })));
@@ -998,15 +998,15 @@ fn scenario_expiry(args: &Args, report: &mut Report) {
     report.nontrivial(vcore::fnv(b"offer_before_deadline"));
     // a second offer, then clean at its deadline: the answer is refused
     aquatic_common::verif::set_clock(Some(t0 + 20));
-    ask(&mut conns[3], &announce_json(&hb, &pid_n(3), None, Some(1), Some(&[(oy, "y2".into())]), None), 2500);
-    ask(&mut conns[0], &announce_json(&ha, &pid_n(0), None, Some(0), None, None), 2500); // peer 0 of torrent a re-announces at t0+20
+    ask(&mut conns[3], &announce_json(&hb, &pid_n(3), None, Some(1), Some(&[(oy, "y2".into())]), None), 12_000);
+    ask(&mut conns[0], &announce_json(&ha, &pid_n(0), None, Some(0), None, None), 12_000); // peer 0 of torrent a re-announces at t0+20
     aquatic_common::verif::set_clock(Some(t0 + 20 + offer_age));
     if !wait_cleans(2, ww) {
         report.inconclusive("no cleaning pass observed");
         return;
     }
     let start3 = conns[3].log.len();
-    let r4 = ask(&mut conns[4], &announce_json(&hb, &pid_n(4), None, Some(1), None, Some((&pid_n(3), &oy, "late"))), 2500);
+    let r4 = ask(&mut conns[4], &announce_json(&hb, &pid_n(4), None, Some(1), None, Some((&pid_n(3), &oy, "late"))), 12_000);
     std::thread::sleep(Duration::from_millis(100));
     conns[3].pump();
     let delivered = conns[3].log[start3..].iter().any(|m| matches!(m, Incoming::Text(j, raw) if matches!(classify(j, raw), Msg::Answer { .. })));
@@ -1053,7 +1053,7 @@ fn scenario_corpus(args: &Args, report: &mut Report) {
     let mut keeper: Vec<WsConn> = Vec::new();
     for k in 0..3u8 {
         let mut c = WsConn::open(tracker.addr_v4(), None).unwrap();
-        ask(&mut c, &announce_json(&h, &pid_n(k), Some("started"), Some(k as u64 % 2), None, None), 2500);
+        ask(&mut c, &announce_json(&h, &pid_n(k), Some("started"), Some(k as u64 % 2), None, None), 12_000);
         keeper.push(c);
     }
     let n = args.usize("cases", 1500);
